@@ -129,6 +129,8 @@ breaking('M3-sum-over-kept', {'C11': 'M3'}, edit=[(M + 'sim/state.py', "prob = (
 breaking('M3-not-squared', {'C11': 'M3'}, edit=[(M + 'sim/state.py', "        prob = np.abs(q1.reshape(-1))**2", "        prob = np.abs(q1.reshape(-1))")])
 breaking('M3-no-sqrt', {'C11': 'M3'}, edit=[(M + 'sim/state.py', "q2[ind2] = q1[ind2] / np.sqrt(prob[ind1])", "q2[ind2] = q1[ind2] / prob[ind1]")])
 breaking('M3-roles-swapped', {'C11': 'M3'}, edit=[(M + 'sim/state.py', "    keep_dim = tuple(x for x,y in enumerate(z0) if y[0]==1)\n    reduce_dim = tuple(x for x,y in enumerate(z0) if y[0]==0)", "    keep_dim = tuple(x for x,y in enumerate(z0) if y[0]==0)\n    reduce_dim = tuple(x for x,y in enumerate(z0) if y[0]==1)")])
+breaking('AL1-shared-template', {'C19': 'AL1'}, edit=[(M + 'qec/_internal.py', "        for op0 in tmp0:\n            tmp1 = [numqi.gate.pauli.s0 for _ in range(num_qubit)]", "        identity = [numqi.gate.pauli.s0]*num_qubit\n        for op0 in tmp0:\n            tmp1 = identity")])
+breaking('Q6-padded-dimension', {'C19': 'Q6'}, edit=[(M + 'qec/_internal.py', "    num_logical_dim = code.shape[0]\n    num_logical_qubit = numqi.utils.hf_num_state_to_num_qubit(num_logical_dim, kind='ceil')\n    if 2**num_logical_qubit > num_logical_dim:\n        code = np.pad(code, [(0,2**num_logical_qubit-num_logical_dim),(0,0)], mode='constant', constant_values=0)\n", "    num_logical_qubit = numqi.utils.hf_num_state_to_num_qubit(code.shape[0], kind='ceil')\n    if 2**num_logical_qubit > code.shape[0]:\n        code = np.pad(code, [(0,2**num_logical_qubit-code.shape[0]),(0,0)], mode='constant', constant_values=0)\n    num_logical_dim = code.shape[0]\n")])
 breaking('refix-get_gme_2qubit', {'C13': 'F2', 'C05': 'F2'}, patch_reverse='fix_78cd862.diff')
 
 # ---- textual breaking edits, one per rule family
